@@ -15,6 +15,7 @@ import shutil
 import subprocess
 import sys
 import tempfile
+import time
 import traceback
 from pathlib import Path
 
@@ -192,6 +193,14 @@ def apply_op(root, op, state):
         if a.exists():
             b.parent.mkdir(parents=True, exist_ok=True)
             a.rename(b)
+    elif kind == "write-old":
+        # new content whose modification time lies in the past (restored backup, `mv` of an older file, `touch -d`)
+        _, p, k = op
+        f = Path(root) / p
+        f.parent.mkdir(parents=True, exist_ok=True)
+        f.write_text(CONTENTS[k](p.rsplit(".", 1)[-1]))
+        old = time.time() - 7200
+        os.utime(f, (old, old))
     elif kind == "copy":
         a, b = Path(root) / op[1], Path(root) / op[2]
         if a.exists():
@@ -247,7 +256,8 @@ def c09_sequences(tier, rnd):
            ("rename", "b.js", "b.py"), ("touch", "b.js"), ("swap", "a.py", "sub/c.py"), ("exclude",), ("cache-other-version",),
            ("cache-bad-checksum",), ("cache-no-version",), ("cache-null-version",), ("write", "b.js", "long"), ("delete", "sub/c.py"),
            ("layout", "sub/c.py", "blank-top"), ("layout", "a.py", "ws-line"), ("layout", "b.js", "trailing"),
-           ("copy", "a.py", "a_copy.js"), ("copy", "b.js", "sub/b_copy.ts"), ("write", "e.py", "empty"), ("write", "e.c", "empty")]
+           ("copy", "a.py", "a_copy.js"), ("copy", "b.js", "sub/b_copy.ts"), ("write", "e.py", "empty"), ("write", "e.c", "empty"),
+           ("write-old", "a.py", "other"), ("write-old", "sub/c.py", "short")]
     seqs = [[o] for o in ops]
     seqs += [list(c) for c in itertools.permutations(ops, 2)][:: (3 if tier == "quick" else 1)]
     for _ in range(30 if tier == "quick" else 400):
